@@ -24,3 +24,890 @@ Proof.
   exists (fun _ => Some f22_cache), default_config, 2000, (Some EmptyString).
   split; [vm_compute; reflexivity|]. eexists. split; vm_compute; reflexivity.
 Qed.
+
+(* ================================================================== C18 *)
+(* ------------------------------------------------------------------ equality tests *)
+Lemma proto_eqb_refl p : proto_eqb p p = true.
+Proof. destruct p; cbn; auto using N.eqb_refl, String.eqb_refl. Qed.
+
+Lemma addr_eqb_refl a : addr_eqb a a = true.
+Proof. induction a as [|p r IH]; [reflexivity|]. cbn. rewrite proto_eqb_refl. exact IH. Qed.
+
+Lemma proto_eqb_eq p q : proto_eqb p q = true -> p = q.
+Proof.
+  destruct p, q; cbn; intros H; try discriminate; try reflexivity;
+    try (apply N.eqb_eq in H; congruence); try (apply String.eqb_eq in H; congruence).
+Qed.
+
+Lemma addr_eqb_eq a b : addr_eqb a b = true -> a = b.
+Proof.
+  revert b. induction a as [|p r IH]; intros [|q s] H; try discriminate; [reflexivity|].
+  cbn in H. apply andb_true_iff in H. destruct H as [H1 H2].
+  apply proto_eqb_eq in H1. apply IH in H2. congruence.
+Qed.
+
+(* ------------------------------------------------------------------ stable sort, truncation *)
+Lemma In_insert_by {A} (key : A -> N) x y l : In y (insert_by key x l) <-> y = x \/ In y l.
+Proof.
+  induction l as [|z t IH]; cbn.
+  - intuition.
+  - destruct (key z <=? key x); cbn; rewrite ?IH; intuition.
+Qed.
+
+Lemma length_insert_by {A} (key : A -> N) x l : List.length (insert_by key x l) = S (List.length l).
+Proof. induction l as [|z t IH]; cbn; [reflexivity|]. destruct (key z <=? key x); cbn; congruence. Qed.
+
+Lemma In_fold_insert {A} (key : A -> N) l : forall acc y,
+  In y (fold_left (fun acc x => insert_by key x acc) l acc) <-> In y l \/ In y acc.
+Proof.
+  induction l as [|x t IH]; intros acc y; cbn; [intuition|].
+  rewrite IH, In_insert_by. intuition.
+Qed.
+
+Lemma In_stable_sort {A} (key : A -> N) l y : In y (stable_sort_by_key key l) <-> In y l.
+Proof. unfold stable_sort_by_key. rewrite In_fold_insert. cbn. intuition. Qed.
+
+Lemma In_firstn' {A} n : forall (l : list A) x, In x (firstn n l) -> In x l.
+Proof. induction n as [|n IH]; intros [|y t] x H; cbn in *; try tauto. destruct H; auto. Qed.
+
+Lemma In_truncate cfg l r : In r (truncate_addrs cfg l) -> In r l.
+Proof.
+  unfold truncate_addrs. destruct (max_addrs cfg <? len l); [|auto].
+  intros H. apply In_firstn' in H. apply In_stable_sort in H. exact H.
+Qed.
+
+Lemma len_truncate cfg l : len (truncate_addrs cfg l) <= max_addrs cfg.
+Proof.
+  unfold truncate_addrs. destruct (N.ltb_spec (max_addrs cfg) (len l)) as [L|L]; [|exact L].
+  unfold len. rewrite firstn_length. lia.
+Qed.
+
+(* ------------------------------------------------------------------ removing the oldest peers *)
+Lemma length_remove_last_where {A} (f : A -> bool) l :
+  existsb f l = true -> S (List.length (remove_last_where f l)) = List.length l.
+Proof.
+  induction l as [|x t IH]; cbn; [discriminate|].
+  destruct (existsb f t) eqn:E.
+  - intros _. cbn. rewrite IH by reflexivity. reflexivity.
+  - rewrite orb_false_r. intros ->. reflexivity.
+Qed.
+
+Lemma In_remove_last_where {A} (f : A -> bool) l y : In y (remove_last_where f l) -> In y l.
+Proof.
+  induction l as [|x t IH]; cbn; [auto|].
+  destruct (existsb f t); cbn; [intuition|]. destruct (f x); cbn; intuition.
+Qed.
+
+(* an element that disappears satisfied the predicate *)
+Lemma removed_satisfies {A} (f : A -> bool) l y :
+  In y l -> ~ In y (remove_last_where f l) -> f y = true.
+Proof.
+  induction l as [|x t IH]; cbn; [tauto|].
+  destruct (existsb f t) eqn:E; cbn.
+  - intros [->|Hin] Hn; [tauto|]. apply IH; tauto.
+  - destruct (f x) eqn:Fx; cbn.
+    + intros [->|Hin] Hn; [exact Fx | tauto].
+    + intros H Hn. tauto.
+Qed.
+
+Lemma max_age_ge now c pl : In pl c -> peer_age now (snd pl) <= max_age now c.
+Proof.
+  induction c as [|x t IH]; [intros []|]. cbn [max_age fold_right In]. fold (max_age now t).
+  intros [->|Hin]; [lia|]. specialize (IH Hin). lia.
+Qed.
+
+Lemma max_age_attained now c : c <> [] ->
+  existsb (fun pl => peer_age now (snd pl) =? max_age now c) c = true.
+Proof.
+  induction c as [|x t IH]; [congruence|]. intros _. cbn [max_age fold_right existsb].
+  fold (max_age now t).
+  destruct t as [|y t'].
+  - cbn. rewrite N.max_0_r, N.eqb_refl. reflexivity.
+  - destruct (N.leb_spec (max_age now (y :: t')) (peer_age now (snd x))) as [L|L].
+    + rewrite N.max_l by lia. rewrite N.eqb_refl. reflexivity.
+    + rewrite N.max_r by lia. rewrite IH by congruence. apply orb_true_r.
+Qed.
+
+Lemma length_remove_one_oldest now c : c <> [] ->
+  S (List.length (remove_one_oldest now c)) = List.length c.
+Proof. intros H. apply length_remove_last_where. apply max_age_attained. exact H. Qed.
+
+Lemma length_remove_oldest_n now k : forall c, (k <= List.length c)%nat ->
+  List.length (remove_oldest_n now k c) = (List.length c - k)%nat.
+Proof.
+  induction k as [|k IH]; intros c H; cbn; [lia|].
+  assert (NE : c <> []) by (destruct c; cbn in *; [lia | congruence]).
+  pose proof (length_remove_one_oldest now c NE) as L.
+  rewrite IH by lia. lia.
+Qed.
+
+Lemma In_remove_oldest_n now k : forall c y, In y (remove_oldest_n now k c) -> In y c.
+Proof.
+  induction k as [|k IH]; intros c y H; cbn in H; [exact H|].
+  apply IH in H. eapply In_remove_last_where. exact H.
+Qed.
+
+Lemma In_try_remove_oldest cfg now c y : In y (try_remove_oldest cfg now c) -> In y c.
+Proof. unfold try_remove_oldest. destruct (_ <? _); [apply In_remove_oldest_n | auto]. Qed.
+
+Lemma len_try_remove_oldest cfg now c : len (try_remove_oldest cfg now c) = N.min (len c) (max_peers cfg).
+Proof.
+  unfold try_remove_oldest. destruct (N.ltb_spec (max_peers cfg) (len c)) as [L|L].
+  - unfold len in *. rewrite length_remove_oldest_n by lia. lia.
+  - lia.
+Qed.
+
+Lemma proto_eq_dec (a b : proto) : {a = b} + {a <> b}.
+Proof. decide equality; try apply N.eq_dec; apply string_dec. Qed.
+Lemma arec_eq_dec (a b : arec) : {a = b} + {a <> b}.
+Proof. decide equality; try apply N.eq_dec. apply (list_eq_dec proto_eq_dec). Qed.
+Lemma entry_eq_dec (a b : peer * list arec) : {a = b} + {a <> b}.
+Proof. decide equality; [apply (list_eq_dec arec_eq_dec) | apply string_dec]. Qed.
+
+(* nothing that stays is older than anything that goes *)
+Lemma remove_oldest_n_oldest now k : forall c x y,
+  In x (remove_oldest_n now k c) -> In y c -> ~ In y (remove_oldest_n now k c) ->
+  peer_age now (snd x) <= peer_age now (snd y).
+Proof.
+  induction k as [|k IH]; intros c x y Hx Hy Hn; cbn in *; [tauto|].
+  destruct (in_dec entry_eq_dec y (remove_one_oldest now c))
+    as [Hin|Hout].
+  - eapply IH; eassumption.
+  - pose proof (removed_satisfies _ _ _ Hy Hout) as E. cbn in E. apply N.eqb_eq in E. rewrite E.
+    apply max_age_ge. eapply In_remove_last_where. eapply In_remove_oldest_n. exact Hx.
+Qed.
+
+(* ------------------------------------------------------------------ clean-up *)
+Lemma In_clean_peers cfg now c p l :
+  In (p, l) (clean_peers cfg now c) ->
+  l <> [] /\ exists l0, In (p, l0) c /\ l = filter (keep cfg now) l0.
+Proof.
+  unfold clean_peers. intros H. apply filter_In in H. destruct H as [H NE].
+  apply in_map_iff in H. destruct H as ([q l0] & E & Hin). cbn in E. injection E as <- <-.
+  split.
+  - cbn in NE. destruct (filter (keep cfg now) l0); [discriminate | congruence].
+  - exists l0. auto.
+Qed.
+
+(* every entry after clean-up comes from an entry before, with a sub-list of kept addresses *)
+Lemma In_perform_cleanup cfg now c p l :
+  In (p, l) (perform_cleanup cfg now c) ->
+  exists l0, In (p, l0) c /\ (forall r, In r l -> In r l0 /\ keep cfg now r = true) /\
+             len l <= max_addrs cfg /\ (0 < max_addrs cfg -> l <> []).
+Proof.
+  unfold perform_cleanup. intros H. apply In_try_remove_oldest in H.
+  apply in_map_iff in H. destruct H as ([q l1] & E & Hin). cbn in E. injection E as <- <-.
+  apply In_clean_peers in Hin. destruct Hin as (NE & l0 & Hin & ->).
+  exists l0. split; [exact Hin|]. split; [|split].
+  - intros r Hr. apply In_truncate in Hr. apply filter_In in Hr. exact Hr.
+  - apply len_truncate.
+  - intros Hpos. unfold truncate_addrs.
+    destruct (N.ltb_spec (max_addrs cfg) (len (filter (keep cfg now) l0))) as [L|L]; [|exact NE].
+    intros E. apply (f_equal (@List.length arec)) in E. rewrite firstn_length in E.
+    assert (List.length (stable_sort_by_key rate_key (filter (keep cfg now) l0)) =
+            List.length (filter (keep cfg now) l0)) as SL.
+    { unfold stable_sort_by_key.
+      assert (G : forall (l : list arec) acc,
+                 List.length (fold_left (fun acc x => insert_by rate_key x acc) l acc) =
+                 (List.length l + List.length acc)%nat).
+      { induction l as [|x t IH]; intros acc; cbn; [reflexivity|].
+        rewrite IH, length_insert_by. lia. }
+      rewrite G. cbn. lia. }
+    rewrite SL in E. unfold len in L. cbn in E. lia.
+Qed.
+
+Definition bounded (cfg : config) (c : cache) : Prop :=
+  len c <= max_peers cfg /\ forall p l, In (p, l) c -> len l <= max_addrs cfg.
+
+Lemma bounded_after_cleanup_lemma cfg now c : bounded cfg (perform_cleanup cfg now c).
+Proof.
+  split.
+  - unfold perform_cleanup. rewrite len_try_remove_oldest. lia.
+  - intros p l H. apply In_perform_cleanup in H. destruct H as (l0 & _ & _ & L & _). exact L.
+Qed.
+
+Lemma bounded_b_iff cfg c : bounded_b cfg c = true <-> bounded cfg c.
+Proof.
+  unfold bounded_b, bounded. rewrite andb_true_iff, forallb_forall, N.leb_le. split.
+  - intros [H1 H2]. split; [exact H1|]. intros p l Hin. specialize (H2 _ Hin). cbn in H2.
+    apply N.leb_le in H2. exact H2.
+  - intros [H1 H2]. split; [exact H1|]. intros [p l] Hin. cbn. apply N.leb_le. eauto.
+Qed.
+
+Lemma cleanup_postcondition_lemma cfg now c p l r :
+  In (p, l) (perform_cleanup cfg now c) -> In r l ->
+  a_f r <= a_s r /\ a_seen r <= now /\ now - a_seen r < expiry cfg.
+Proof.
+  intros H Hr. apply In_perform_cleanup in H. destruct H as (l0 & _ & K & _).
+  destruct (K r Hr) as [_ Kr]. unfold keep, reliable, unexpired in Kr.
+  apply andb_true_iff in Kr. destruct Kr as [K1 K2]. apply andb_true_iff in K2. destruct K2 as [K2 K3].
+  apply N.leb_le in K1, K2. apply N.ltb_lt in K3. auto.
+Qed.
+
+(* the eviction order: a peer that stays is not older than a peer that is evicted *)
+Lemma cleanup_evicts_oldest_lemma cfg now c x y :
+  let pre := map (fun pl => (fst pl, truncate_addrs cfg (snd pl))) (clean_peers cfg now c) in
+  In x (perform_cleanup cfg now c) -> In y pre -> ~ In y (perform_cleanup cfg now c) ->
+  peer_age now (snd x) <= peer_age now (snd y).
+Proof.
+  intros pre. unfold perform_cleanup. fold pre. unfold try_remove_oldest.
+  destruct (max_peers cfg <? len pre); [|tauto]. apply remove_oldest_n_oldest.
+Qed.
+
+(* ------------------------------------------------------------------ finite-map facts *)
+Lemma lookup_In c p l : lookup c p = Some l -> In (p, l) c.
+Proof.
+  induction c as [|[q l0] t IH]; cbn; [discriminate|].
+  destruct (String.eqb_spec q p) as [->|NE]; [intros H; injection H as <-; auto | auto].
+Qed.
+
+Lemma lookup_set_peer c p l q :
+  lookup (set_peer c p l) q = if String.eqb p q then Some l else lookup c q.
+Proof.
+  induction c as [|[k l0] t IH]; cbn.
+  - destruct (String.eqb p q); reflexivity.
+  - destruct (String.eqb_spec k p) as [->|NE]; cbn.
+    + destruct (String.eqb p q); reflexivity.
+    + rewrite IH. destruct (String.eqb_spec k q) as [->|NE2].
+      * destruct (String.eqb_spec p q) as [->|]; [congruence | reflexivity].
+      * reflexivity.
+Qed.
+
+Lemma In_set_peer c p l q m : In (q, m) (set_peer c p l) -> (q = p /\ m = l) \/ In (q, m) c.
+Proof.
+  induction c as [|[k l0] t IH]; cbn.
+  - intros [E|[]]. injection E as <- <-. auto.
+  - destruct (String.eqb_spec k p) as [->|NE]; cbn.
+    + intros [E|H]; [injection E as <- <-; auto | auto].
+    + intros [E|H]; [auto|]. apply IH in H. tauto.
+Qed.
+
+Definition keys (c : cache) : list peer := map fst c.
+
+Lemma keys_set_peer_in c p l : In p (keys c) -> keys (set_peer c p l) = keys c.
+Proof.
+  induction c as [|[k l0] t IH]; cbn; [tauto|].
+  destruct (String.eqb_spec k p) as [->|NE]; cbn; [reflexivity|].
+  intros [E|H]; [congruence|]. unfold keys in IH. rewrite IH by exact H. reflexivity.
+Qed.
+
+Lemma keys_set_peer_new c p l : ~ In p (keys c) -> keys (set_peer c p l) = keys c ++ [p].
+Proof.
+  induction c as [|[k l0] t IH]; cbn; [reflexivity|].
+  destruct (String.eqb_spec k p) as [->|NE]; cbn; [tauto|].
+  intros H. unfold keys in IH. rewrite IH by tauto. reflexivity.
+Qed.
+
+Lemma lookup_None_keys c p : lookup c p = None <-> ~ In p (keys c).
+Proof.
+  induction c as [|[k l0] t IH]; cbn; [tauto|].
+  destruct (String.eqb_spec k p) as [->|NE].
+  - split; [discriminate | tauto].
+  - rewrite IH. unfold keys. tauto.
+Qed.
+
+Lemma NoDup_set_peer c p l : NoDup (keys c) -> NoDup (keys (set_peer c p l)).
+Proof.
+  intros H. destruct (in_dec string_dec p (keys c)) as [Hin|Hout].
+  - rewrite keys_set_peer_in by exact Hin. exact H.
+  - rewrite keys_set_peer_new by exact Hout.
+    apply NoDup_rev in H. rewrite <- (rev_involutive (keys c ++ [p])). apply NoDup_rev.
+    rewrite rev_app_distr. cbn. constructor; [rewrite <- in_rev; exact Hout | exact H].
+Qed.
+
+(* ------------------------------------------------------------------ address lists *)
+Lemma has_upd_first f a l x : (forall r, a_addr (f r) = a_addr r) -> has (upd_first f a l) x = has l x.
+Proof.
+  intros Hf. induction l as [|r t IH]; [reflexivity|]. cbn [upd_first].
+  destruct (addr_eqb (a_addr r) a); cbn [has existsb].
+  - rewrite Hf. reflexivity.
+  - unfold has in IH. rewrite IH. reflexivity.
+Qed.
+
+Lemma In_upd_first f a l y : In y (upd_first f a l) -> In y l \/ exists r, In r l /\ y = f r.
+Proof.
+  induction l as [|r t IH]; cbn; [tauto|].
+  destruct (addr_eqb (a_addr r) a); cbn.
+  - intros [<-|H]; [right; eauto | auto].
+  - intros [<-|H]; [auto|]. apply IH in H. destruct H as [H|(r0 & H1 & H2)]; [auto | right; eauto].
+Qed.
+
+Lemma length_upd_first f a l : List.length (upd_first f a l) = List.length l.
+Proof. induction l as [|r t IH]; cbn; [reflexivity|]. destruct (addr_eqb _ a); cbn; congruence. Qed.
+
+Lemma In_remove_first a l y : In y (remove_first a l) -> In y l.
+Proof.
+  induction l as [|r t IH]; cbn; [tauto|]. destruct (addr_eqb (a_addr r) a); cbn; intuition.
+Qed.
+
+Lemma length_remove_first a l : (List.length (remove_first a l) <= List.length l)%nat.
+Proof. induction l as [|r t IH]; cbn; [lia|]. destruct (addr_eqb _ a); cbn; lia. Qed.
+
+Lemma arec_sync_addr r x : a_addr (arec_sync r x) = a_addr r.
+Proof. unfold arec_sync. destruct (_ =? _); reflexivity. Qed.
+
+Lemma has_app l1 l2 x : has (l1 ++ l2) x = has l1 x || has l2 x.
+Proof. unfold has. apply existsb_app. Qed.
+
+Lemma has_insert_addr_mono l y x : has l x = true -> has (insert_addr l y) x = true.
+Proof.
+  intros H. unfold insert_addr. destruct (has l (a_addr y)).
+  - rewrite has_upd_first by (intros; apply arec_sync_addr). exact H.
+  - rewrite has_app, H. reflexivity.
+Qed.
+
+Lemma has_insert_addr_new l y : has (insert_addr l y) (a_addr y) = true.
+Proof.
+  unfold insert_addr. destruct (has l (a_addr y)) eqn:E.
+  - rewrite has_upd_first by (intros; apply arec_sync_addr). exact E.
+  - rewrite has_app. cbn. rewrite addr_eqb_refl. apply orb_true_r.
+Qed.
+
+Lemma has_In l x : has l x = true <-> exists r, In r l /\ a_addr r = x.
+Proof.
+  unfold has. rewrite existsb_exists. split.
+  - intros (r & Hin & E). apply addr_eqb_eq in E. eauto.
+  - intros (r & Hin & <-). exists r. split; [exact Hin | apply addr_eqb_refl].
+Qed.
+
+Lemma has_addrs_sync_mono other : forall self x, has self x = true -> has (addrs_sync self other) x = true.
+Proof.
+  unfold addrs_sync. induction other as [|y t IH]; intros self x H; cbn; [exact H|].
+  apply IH. apply has_insert_addr_mono. exact H.
+Qed.
+
+Lemma has_addrs_sync_other other : forall self x, has other x = true -> has (addrs_sync self other) x = true.
+Proof.
+  unfold addrs_sync. induction other as [|y t IH]; intros self x H; cbn in *; [discriminate|].
+  apply orb_true_iff in H. destruct H as [H|H].
+  - apply addr_eqb_eq in H. subst x. apply (has_addrs_sync_mono t). apply has_insert_addr_new.
+  - apply IH. exact H.
+Qed.
+
+(* the records of a merged list carry addresses of one of the two sides *)
+Lemma In_insert_addr l y r : In r (insert_addr l y) -> (exists r0, In r0 l /\ a_addr r = a_addr r0) \/ r = y.
+Proof.
+  unfold insert_addr. destruct (has l (a_addr y)).
+  - intros H. apply In_upd_first in H. destruct H as [H|(r0 & H1 & ->)]; left.
+    + eauto.
+    + exists r0. split; [exact H1 | apply arec_sync_addr].
+  - intros H. apply in_app_or in H. destruct H as [H | [E | F]]; [left; eauto | right; symmetry; exact E | destruct F].
+Qed.
+
+Lemma In_addrs_sync other : forall self r, In r (addrs_sync self other) ->
+  exists r0, (In r0 self \/ In r0 other) /\ a_addr r = a_addr r0.
+Proof.
+  unfold addrs_sync. induction other as [|y t IH]; intros self r H; cbn in H; [eauto|].
+  apply IH in H. destruct H as (r0 & [H|H] & E).
+  - apply In_insert_addr in H. destruct H as [(r1 & H1 & E1) | ->].
+    + exists r1. split; [auto | congruence].
+    + exists y. split; [right; left; reflexivity | exact E].
+  - exists r0. split; [right; right; exact H | exact E].
+Qed.
+
+(* ------------------------------------------------------------------ merge keeps both sides *)
+Definition has_addr (c : cache) (p : peer) (x : addr) : Prop :=
+  exists l, lookup c p = Some l /\ has l x = true.
+
+Lemma sync_peer_mono acc po q x : has_addr acc q x -> has_addr (sync_peer acc po) q x.
+Proof.
+  destruct po as [p oa]. intros (l & L & H). unfold sync_peer, has_addr.
+  destruct (lookup acc p) as [sa|] eqn:E; rewrite lookup_set_peer.
+  - destruct (String.eqb_spec p q) as [->|NE]; [|eauto].
+    rewrite L in E. injection E as <-. eexists. split; [reflexivity|]. apply has_addrs_sync_mono. exact H.
+  - destruct (String.eqb_spec p q) as [->|NE]; [congruence | eauto].
+Qed.
+
+Lemma sync_peer_adds acc p oa x : has oa x = true -> has_addr (sync_peer acc (p, oa)) p x.
+Proof.
+  intros H. unfold sync_peer, has_addr.
+  destruct (lookup acc p) as [sa|] eqn:E; rewrite lookup_set_peer, String.eqb_refl;
+    eexists; (split; [reflexivity|]); apply has_addrs_sync_other; exact H.
+Qed.
+
+Lemma cache_sync_mono other : forall self q x, has_addr self q x -> has_addr (cache_sync self other) q x.
+Proof.
+  unfold cache_sync. induction other as [|po t IH]; intros self q x H; cbn; [exact H|].
+  apply IH. apply sync_peer_mono. exact H.
+Qed.
+
+Lemma cache_sync_other other : forall self p l x,
+  In (p, l) other -> has l x = true -> has_addr (cache_sync self other) p x.
+Proof.
+  unfold cache_sync. induction other as [|po t IH]; intros self p l x Hin H; cbn; [destruct Hin|].
+  destruct Hin as [->|Hin].
+  - apply (cache_sync_mono t). apply sync_peer_adds. exact H.
+  - eapply IH; eassumption.
+Qed.
+
+Lemma sync_loses_nothing_lemma a b p x :
+  has_addr a p x \/ has_addr b p x -> has_addr (cache_sync a b) p x.
+Proof.
+  intros [H|(l & L & H)].
+  - apply cache_sync_mono. exact H.
+  - eapply cache_sync_other; [apply lookup_In; exact L | exact H].
+Qed.
+
+(* and the merge invents nothing: every address afterwards was known to one side *)
+Lemma In_sync_peer acc po q l r : In (q, l) (sync_peer acc po) -> In r l ->
+  exists l0 r0, (In (q, l0) acc \/ (q, l0) = po) /\ In r0 l0 /\ a_addr r = a_addr r0.
+Proof.
+  destruct po as [p oa]. unfold sync_peer.
+  destruct (lookup acc p) as [sa|] eqn:E; intros H Hr; apply In_set_peer in H;
+    destruct H as [[-> ->]|H]; try (exists l, r; auto; fail).
+  - apply In_addrs_sync in Hr. destruct Hr as (r0 & [H0|H0] & E0).
+    + exists sa, r0. split; [left; apply lookup_In; exact E | auto].
+    + exists oa, r0. auto.
+  - apply In_addrs_sync in Hr. destruct Hr as (r0 & [H0|H0] & E0); exists oa, r0; auto.
+Qed.
+
+(* ------------------------------------------------------------------ well-formed addresses *)
+Definition all_wf (c : cache) : Prop :=
+  forall p l r, In (p, l) c -> In r l -> wf_addr (a_addr r) = true.
+
+Lemma all_wf_b_iff c : all_wf_b c = true <-> all_wf c.
+Proof.
+  unfold all_wf_b, all_wf. rewrite forallb_forall. split.
+  - intros H p l r Hin Hr. specialize (H _ Hin). cbn in H. rewrite forallb_forall in H. auto.
+  - intros H [p l] Hin. cbn. apply forallb_forall. intros r Hr. eauto.
+Qed.
+
+Lemma all_wf_set_peer c p l : all_wf c -> (forall r, In r l -> wf_addr (a_addr r) = true) ->
+  all_wf (set_peer c p l).
+Proof.
+  intros Hc Hl q m r Hin Hr. apply In_set_peer in Hin. destruct Hin as [[-> ->]|Hin]; eauto.
+Qed.
+
+Lemma all_wf_sync_peer acc po : all_wf acc -> (forall r, In r (snd po) -> wf_addr (a_addr r) = true) ->
+  all_wf (sync_peer acc po).
+Proof.
+  intros Ha Ho q l r Hin Hr. destruct (In_sync_peer _ _ _ _ _ Hin Hr) as (l0 & r0 & [H|H] & H0 & E).
+  - rewrite E. eauto.
+  - rewrite E. apply Ho. rewrite <- H. exact H0.
+Qed.
+
+Lemma all_wf_cache_sync other : forall self, all_wf self -> all_wf other -> all_wf (cache_sync self other).
+Proof.
+  unfold cache_sync. induction other as [|po t IH]; intros self Hs Ho; cbn; [exact Hs|].
+  apply IH.
+  - apply all_wf_sync_peer; [exact Hs|]. intros r Hr. destruct po as [p oa]. eapply Ho; [left; reflexivity | exact Hr].
+  - intros p l r Hin Hr. eapply Ho; [right; exact Hin | exact Hr].
+Qed.
+
+Lemma all_wf_cleanup cfg now c : all_wf c -> all_wf (perform_cleanup cfg now c).
+Proof.
+  intros H p l r Hin Hr. apply In_perform_cleanup in Hin. destruct Hin as (l0 & Hin & K & _).
+  destruct (K r Hr) as [Hr0 _]. eauto.
+Qed.
+
+Lemma all_wf_add_addr cfg now c raw : all_wf c -> all_wf (add_addr cfg now c raw).
+Proof.
+  intros H. unfold add_addr, add_addr_core. destruct (craft raw false) as [a|] eqn:Ec; [|exact H].
+  apply craft_wf_lemma in Ec. destruct (peer_of a) as [p|]; [|exact H].
+  destruct (lookup c p) as [l|] eqn:El; cbn [fst snd].
+  - pose proof (lookup_In _ _ _ El) as Hin. destruct (has l a); cbn [fst snd].
+    + apply all_wf_set_peer; [exact H|]. intros r Hr. apply In_upd_first in Hr.
+      destruct Hr as [Hr|(r0 & Hr & ->)]; [eauto | cbn; eauto].
+    + apply all_wf_cleanup. apply all_wf_set_peer; [exact H|]. intros r Hr.
+      apply In_insert_addr in Hr. destruct Hr as [(r0 & H0 & E) | ->]; [rewrite E; eauto | exact Ec].
+  - apply all_wf_cleanup. apply all_wf_set_peer; [exact H|]. intros r [E | F]; [subst r; exact Ec | destruct F].
+Qed.
+
+Lemma update_status_addr ok now r : a_addr (update_status ok now r) = a_addr r.
+Proof. unfold update_status. destruct ok; [destruct (_ <=? _) | destruct (_ <=? _)]; reflexivity. Qed.
+
+Lemma all_wf_update cfg c a ok : all_wf c -> all_wf (update_addr_status cfg c a ok).
+Proof.
+  intros H. unfold update_addr_status. destruct (peer_of a) as [p|]; [|exact H].
+  destruct (lookup c p) as [l|] eqn:El; [|exact H]. pose proof (lookup_In _ _ _ El) as Hin.
+  apply all_wf_set_peer; [exact H|]. intros r Hr. apply In_upd_first in Hr.
+  destruct Hr as [Hr|(r0 & Hr & ->)]; [eauto | rewrite update_status_addr; eauto].
+Qed.
+
+Lemma all_wf_remove c a : all_wf c -> all_wf (remove_addr c a).
+Proof.
+  intros H. unfold remove_addr. destruct (peer_of a) as [p|]; [|exact H].
+  destruct (lookup c p) as [l|] eqn:El; [|exact H]. pose proof (lookup_In _ _ _ El) as Hin.
+  apply all_wf_set_peer; [exact H|]. intros r Hr. apply In_remove_first in Hr. eauto.
+Qed.
+
+Definition syncs_wf (ops : list (N * op)) : Prop :=
+  forall t other, In (t, OpSync other) ops -> all_wf other.
+
+Lemma wellformed_lemma cfg ops : forall c, all_wf c -> syncs_wf ops -> all_wf (run cfg ops c).
+Proof.
+  unfold run. induction ops as [|[t o] rest IH]; intros c Hc Hs; cbn; [exact Hc|].
+  apply IH.
+  - destruct o; cbn.
+    + apply all_wf_add_addr. exact Hc.
+    + apply all_wf_update. exact Hc.
+    + apply all_wf_remove. exact Hc.
+    + apply all_wf_cache_sync; [exact Hc|]. eapply Hs. left. reflexivity.
+    + apply all_wf_cleanup. exact Hc.
+  - intros t' other Hin. eapply Hs. right. exact Hin.
+Qed.
+
+Lemma syncs_wf_b ops :
+  forallb (fun t => match snd t with OpSync o => all_wf_b o | _ => true end) ops = true -> syncs_wf ops.
+Proof.
+  intros H t other Hin. rewrite forallb_forall in H. specialize (H _ Hin). cbn in H.
+  apply all_wf_b_iff. exact H.
+Qed.
+
+Lemma all_wf_nil : all_wf [].
+Proof. intros p l r []. Qed.
+
+(* ------------------------------------------------------------------ where the bound holds *)
+Lemma len_set_peer_in c p l : In p (keys c) -> len (set_peer c p l) = len c.
+Proof.
+  intros H. apply keys_set_peer_in with (l := l) in H. unfold len.
+  apply (f_equal (@List.length peer)) in H. unfold keys in H. rewrite !map_length in H. lia.
+Qed.
+
+Lemma lookup_Some_keys c p l : lookup c p = Some l -> In p (keys c).
+Proof. intros H. apply lookup_In in H. unfold keys. apply in_map_iff. exists (p, l). auto. Qed.
+
+Lemma bounded_set_peer_in cfg c p l0 l :
+  bounded cfg c -> lookup c p = Some l0 -> len l <= max_addrs cfg -> bounded cfg (set_peer c p l).
+Proof.
+  intros [B1 B2] L Hl. split.
+  - rewrite len_set_peer_in by (eapply lookup_Some_keys; exact L). exact B1.
+  - intros q m Hin. apply In_set_peer in Hin. destruct Hin as [[-> ->]|Hin]; eauto.
+Qed.
+
+Lemma bounded_add_addr cfg now c raw : bounded cfg c -> bounded cfg (add_addr cfg now c raw).
+Proof.
+  intros B. unfold add_addr, add_addr_core. destruct (craft raw false) as [a|]; [|exact B].
+  destruct (peer_of a) as [p|]; [|exact B].
+  destruct (lookup c p) as [l|] eqn:El; cbn [fst snd].
+  - destruct (has l a); cbn [fst snd].
+    + eapply bounded_set_peer_in; [exact B | exact El|].
+      unfold len. rewrite length_upd_first. destruct B as [_ B2]. apply (B2 p). apply lookup_In. exact El.
+    + apply bounded_after_cleanup_lemma.
+  - apply bounded_after_cleanup_lemma.
+Qed.
+
+Lemma bounded_update cfg now c a ok : bounded cfg c -> bounded cfg (update_addr_status now c a ok).
+Proof.
+  intros B. unfold update_addr_status. destruct (peer_of a) as [p|]; [|exact B].
+  destruct (lookup c p) as [l|] eqn:El; [|exact B].
+  eapply bounded_set_peer_in; [exact B | exact El|].
+  unfold len. rewrite length_upd_first. destruct B as [_ B2]. apply (B2 p). apply lookup_In. exact El.
+Qed.
+
+Lemma bounded_remove cfg c a : bounded cfg c -> bounded cfg (remove_addr c a).
+Proof.
+  intros B. unfold remove_addr. destruct (peer_of a) as [p|]; [|exact B].
+  destruct (lookup c p) as [l|] eqn:El; [|exact B].
+  eapply bounded_set_peer_in; [exact B | exact El|].
+  pose proof (length_remove_first a l) as L. destruct B as [_ B2].
+  specialize (B2 _ _ (lookup_In _ _ _ El)). unfold len in *. lia.
+Qed.
+
+(* from a bounded cache, only a merge can lead outside the bound (until the next clean-up) *)
+Lemma bounded_without_sync_lemma cfg ops : forall c,
+  forallb (fun t => negb (is_sync (snd t))) ops = true -> bounded cfg c -> bounded cfg (run cfg ops c).
+Proof.
+  unfold run. induction ops as [|[t o] rest IH]; intros c Hs B; cbn; [exact B|].
+  cbn in Hs. apply andb_true_iff in Hs. destruct Hs as [Ho Hs]. apply IH; [exact Hs|].
+  destruct o; cbn in *; try discriminate.
+  - apply bounded_add_addr. exact B.
+  - apply bounded_update. exact B.
+  - apply bounded_remove. exact B.
+  - apply bounded_after_cleanup_lemma.
+Qed.
+
+Lemma bounded_nil cfg : bounded cfg [].
+Proof. split; [unfold len; cbn; lia | intros p l []]. Qed.
+
+Definition tiny_cfg : config := {| max_peers := 1; max_addrs := 1; expiry := 1000 |}.
+Definition rec_at (i : N) (p : string) : arec :=
+  {| a_addr := [Ip4 i; Udp 1; P2p p]; a_s := 1; a_f := 0; a_seen := 10 |}.
+
+Lemma sync_breaks_bound_refuted_lemma :
+  exists cfg a b, bounded cfg a /\ bounded cfg b /\ ~ bounded cfg (cache_sync a b).
+Proof.
+  exists tiny_cfg, [("p"%string, [rec_at 1 "p"])], [("q"%string, [rec_at 2 "q"])].
+  rewrite <- !bounded_b_iff. repeat split; try (vm_compute; reflexivity).
+  vm_compute. discriminate.
+Qed.
+
+Lemma bounded_try_remove cfg now c : (forall p l, In (p, l) c -> len l <= max_addrs cfg) ->
+  bounded cfg (try_remove_oldest cfg now c).
+Proof.
+  intros H. split; [rewrite len_try_remove_oldest; lia|].
+  intros p l Hin. apply In_try_remove_oldest in Hin. eauto.
+Qed.
+
+(* ------------------------------------------------------------------ clean-up is the identity on clean caches *)
+Lemma filter_all {A} (f : A -> bool) l : (forall x, In x l -> f x = true) -> filter f l = l.
+Proof.
+  induction l as [|x t IH]; intros H; cbn; [reflexivity|].
+  rewrite (H x (or_introl eq_refl)). rewrite IH; [reflexivity|]. intros y Hy. apply H. right. exact Hy.
+Qed.
+
+Definition clean (cfg : config) (now : N) (c : cache) : Prop :=
+  len c <= max_peers cfg /\
+  forall p l, In (p, l) c -> l <> [] /\ len l <= max_addrs cfg /\ forall r, In r l -> keep cfg now r = true.
+
+Lemma cleanup_fixpoint_lemma cfg now c : clean cfg now c -> perform_cleanup cfg now c = c.
+Proof.
+  intros [H1 H2]. unfold perform_cleanup.
+  assert (E : map (fun pl => (fst pl, truncate_addrs cfg (snd pl))) (clean_peers cfg now c) = c).
+  { unfold clean_peers. clear H1. induction c as [|[p l] t IH]; [reflexivity|].
+    destruct (H2 p l (or_introl eq_refl)) as (NE & L & K).
+    cbn [map fst snd]. rewrite (filter_all _ _ K). cbn [filter snd].
+    destruct l as [|r0 l']; [congruence|]. cbn [negb map fst snd].
+    rewrite IH by (intros q m Hin; apply (H2 q m); right; exact Hin).
+    f_equal. unfold truncate_addrs. destruct (N.ltb_spec (max_addrs cfg) (len (r0 :: l'))); [lia | reflexivity]. }
+  rewrite E. unfold try_remove_oldest. destruct (N.ltb_spec (max_peers cfg) (len c)); [lia | reflexivity].
+Qed.
+
+(* ------------------------------------------------------------------ persistence *)
+Lemma save_load_lemma (enc : cache -> string) dec cfg now c :
+  dec (enc c) = Some c -> load_cache dec cfg now (Some (enc c)) = Ok (perform_cleanup cfg now c).
+Proof. intros H. unfold load_cache. rewrite H. reflexivity. Qed.
+
+Lemma save_load_clean_lemma (enc : cache -> string) dec cfg now c :
+  dec (enc c) = Some c -> clean cfg now c -> load_cache dec cfg now (Some (enc c)) = Ok c.
+Proof. intros H K. rewrite save_load_lemma by exact H. rewrite cleanup_fixpoint_lemma by exact K. reflexivity. Qed.
+
+Lemma load_bounded_lemma dec cfg now file c : load_cache dec cfg now file = Ok c -> bounded cfg c.
+Proof.
+  unfold load_cache. destruct file as [t|]; [|discriminate]. destruct (dec t); [|discriminate].
+  intros H. injection H as <-. apply bounded_after_cleanup_lemma.
+Qed.
+
+Lemma corrupt_ignored_lemma (enc : cache -> string) dec cfg now wc mem t :
+  dec t = None ->
+  load_cache dec cfg now (Some t) = Err 2 /\
+  sync_and_flush enc dec cfg now wc mem (Some t) =
+    ([], Some (enc (if wc then try_remove_oldest cfg now (perform_cleanup cfg now mem) else mem))).
+Proof. intros H. unfold sync_and_flush, load_cache. rewrite H. split; reflexivity. Qed.
+
+Lemma flush_with_cleanup_bounded_lemma (enc : cache -> string) dec cfg now mem file :
+  exists out, sync_and_flush enc dec cfg now true mem file = ([], Some (enc out)) /\ bounded cfg out.
+Proof.
+  unfold sync_and_flush. eexists. split; [reflexivity|].
+  apply bounded_try_remove. intros p l Hin. apply In_perform_cleanup in Hin.
+  destruct Hin as (l0 & _ & _ & L & _). exact L.
+Qed.
+
+(* the flush merges before it writes: nothing known to memory or to the file is missing from the
+   merged cache (before its clean-up) *)
+Lemma flush_merges_lemma (enc : cache -> string) dec cfg now mem file d p x :
+  load_cache dec cfg now file = Ok d -> has_addr mem p x \/ has_addr d p x ->
+  sync_and_flush enc dec cfg now false mem file = ([], Some (enc (cache_sync mem d))) /\
+  has_addr (cache_sync mem d) p x.
+Proof.
+  intros L H. unfold sync_and_flush. rewrite L. split; [reflexivity|]. apply sync_loses_nothing_lemma. exact H.
+Qed.
+
+(* ------------------------------------------------------------------ atomic replacement *)
+Lemma temp_of_set_temp ts w s v : temp_of (set_temp ts w s) v = if Nat.eqb w v then s else temp_of ts v.
+Proof.
+  induction ts as [|[u s0] t IH]; cbn.
+  - destruct (Nat.eqb w v); reflexivity.
+  - destruct (Nat.eqb_spec u w) as [->|NE]; cbn.
+    + destruct (Nat.eqb w v); reflexivity.
+    + rewrite IH. destruct (Nat.eqb_spec u v) as [->|NE2].
+      * destruct (Nat.eqb_spec w v) as [->|]; [congruence | reflexivity].
+      * reflexivity.
+Qed.
+
+Lemma temp_is_pending steps : forall st w,
+  temp_of (temps (run_fs st steps)) w = pending_acc w (temp_of (temps st) w) steps.
+Proof.
+  unfold run_fs. induction steps as [|s t IH]; intros st w; cbn; [reflexivity|].
+  rewrite IH. destruct s as [v ch|v]; cbn; rewrite temp_of_set_temp;
+    destruct (Nat.eqb_spec v w) as [->|NE]; reflexivity.
+Qed.
+
+Lemma run_fs_snoc st steps x : run_fs st (steps ++ [x]) = fs_do (run_fs st steps) x.
+Proof. unfold run_fs. rewrite fold_left_app. reflexivity. Qed.
+
+(* the target only ever holds its initial content or what some writer had completely streamed when it
+   committed *)
+Lemma target_is_committed st steps :
+  target (run_fs st steps) = target st \/
+  exists pre w post, steps = pre ++ Commit w :: post /\
+                     target (run_fs st steps) = Some (pending_acc w (temp_of (temps st) w) pre).
+Proof.
+  induction steps as [|x s IH] using rev_ind; [left; reflexivity|].
+  rewrite run_fs_snoc. destruct x as [v ch|v]; cbn.
+  - destruct IH as [IH|(pre & w & post & E & T)]; [left; exact IH|].
+    right. exists pre, w, (post ++ [WriteChunk v ch]). split; [|exact T].
+    rewrite E, <- app_assoc. reflexivity.
+  - right. exists s, v, []. split; [reflexivity|]. rewrite temp_is_pending. reflexivity.
+Qed.
+
+Definition fresh_fs (init : option string) : fs := {| target := init; temps := [] |}.
+
+Lemma atomic_replace_lemma (valid : string -> Prop) init steps :
+  (forall t, init = Some t -> valid t) ->
+  (* every writer commits only after streaming one complete valid text *)
+  (forall pre w post, steps = pre ++ Commit w :: post -> valid (pending w pre)) ->
+  forall seen rest, steps = seen ++ rest ->
+    match target (run_fs (fresh_fs init) seen) with Some t => valid t | None => init = None end.
+Proof.
+  intros Hinit Hw seen rest E.
+  destruct (target_is_committed (fresh_fs init) seen) as [T|(pre & w & post & E2 & T)]; rewrite T.
+  - cbn. destruct init; auto.
+  - cbn. apply (Hw pre w (post ++ rest)). rewrite E, E2, <- app_assoc. reflexivity.
+Qed.
+
+(* without the temporary file + rename, two writers streaming valid texts leave a torn target *)
+Lemma inplace_torn_refuted_lemma :
+  exists steps,
+    (forall pre w post, steps = pre ++ Commit w :: post -> pending w pre = "{a}"%string \/ pending w pre = "{b}"%string) /\
+    target (fold_left fs_do_inplace steps (fresh_fs None)) = Some "{{ab}}"%string.
+Proof.
+  exists [WriteChunk 1 "{"; WriteChunk 2 "{"; WriteChunk 1 "a"; WriteChunk 2 "b"; WriteChunk 1 "}"; WriteChunk 2 "}";
+          Commit 1; Commit 2].
+  split; [|reflexivity].
+  intros pre w post E.
+  do 6 (destruct pre as [|? pre]; [discriminate E | injection E as <- E]).
+  destruct pre as [|? pre]; [injection E as <- _; left; reflexivity | injection E as <- E].
+  destruct pre as [|? pre]; [injection E as <- _; right; reflexivity | injection E as <- E].
+  destruct pre; discriminate E.
+Qed.
+
+(* ------------------------------------------------------------------ the association list stays a map *)
+Lemma NoDup_keys_filter (f : peer * list arec -> bool) c : NoDup (keys c) -> NoDup (keys (filter f c)).
+Proof.
+  induction c as [|x t IH]; cbn; [auto|]. intros H. inversion H as [|? ? Hn Ht]; subst.
+  destruct (f x); cbn; [|auto]. constructor; [|auto].
+  intros Hin. apply Hn. unfold keys in *. apply in_map_iff in Hin. destruct Hin as (y & E & Hy).
+  apply filter_In in Hy. apply in_map_iff. exists y. tauto.
+Qed.
+
+Lemma NoDup_keys_rlw (f : peer * list arec -> bool) c : NoDup (keys c) -> NoDup (keys (remove_last_where f c)).
+Proof.
+  induction c as [|x t IH]; cbn; [auto|]. intros H. inversion H as [|? ? Hn Ht]; subst.
+  destruct (existsb f t); cbn.
+  - constructor; [|auto]. intros Hin. apply Hn. unfold keys in *. apply in_map_iff in Hin.
+    destruct Hin as (y & E & Hy). apply In_remove_last_where in Hy. apply in_map_iff. exists y. tauto.
+  - destruct (f x); cbn; [exact Ht | exact H].
+Qed.
+
+Lemma NoDup_keys_remove_oldest_n now k : forall c, NoDup (keys c) -> NoDup (keys (remove_oldest_n now k c)).
+Proof. induction k as [|k IH]; intros c H; cbn; [exact H|]. apply IH. apply NoDup_keys_rlw. exact H. Qed.
+
+Lemma keys_map_snd (g : peer * list arec -> list arec) c : keys (map (fun pl => (fst pl, g pl)) c) = keys c.
+Proof. unfold keys. rewrite map_map. reflexivity. Qed.
+
+Lemma NoDup_keys_cleanup cfg now c : NoDup (keys c) -> NoDup (keys (perform_cleanup cfg now c)).
+Proof.
+  intros H. unfold perform_cleanup, try_remove_oldest.
+  assert (G : NoDup (keys (map (fun pl => (fst pl, truncate_addrs cfg (snd pl))) (clean_peers cfg now c)))).
+  { rewrite (keys_map_snd (fun pl => truncate_addrs cfg (snd pl))). unfold clean_peers.
+    apply NoDup_keys_filter. rewrite (keys_map_snd (fun pl => filter (keep cfg now) (snd pl))). exact H. }
+  destruct (_ <? _); [apply NoDup_keys_remove_oldest_n|]; exact G.
+Qed.
+
+Lemma NoDup_keys_cache_sync other : forall self, NoDup (keys self) -> NoDup (keys (cache_sync self other)).
+Proof.
+  unfold cache_sync. induction other as [|[p oa] t IH]; intros self H; cbn; [exact H|].
+  apply IH. destruct (lookup self p); apply NoDup_set_peer; exact H.
+Qed.
+
+Lemma keys_unique_lemma cfg ops : forall c, NoDup (keys c) -> NoDup (keys (run cfg ops c)).
+Proof.
+  unfold run. induction ops as [|[t o] rest IH]; intros c H; cbn; [exact H|]. apply IH.
+  destruct o; cbn.
+  - unfold add_addr, add_addr_core. destruct (craft raw false) as [a|]; [|exact H]. destruct (peer_of a) as [p|]; [|exact H].
+    destruct (lookup c p) as [l|]; [destruct (has l a)|]; cbn [fst snd];
+      try apply NoDup_keys_cleanup; apply NoDup_set_peer; exact H.
+  - unfold update_addr_status. destruct (peer_of a) as [p|]; [|exact H].
+    destruct (lookup c p); [apply NoDup_set_peer|]; exact H.
+  - unfold remove_addr. destruct (peer_of a) as [p|]; [|exact H].
+    destruct (lookup c p); [apply NoDup_set_peer|]; exact H.
+  - apply NoDup_keys_cache_sync. exact H.
+  - apply NoDup_keys_cleanup. exact H.
+Qed.
+
+(* ------------------------------------------------------------------ non-vacuity *)
+Definition pA : string := "peerA".
+Definition pB : string := "peerB".
+Definition mk (ip port : N) (p : string) (s f seen : N) : arec :=
+  {| a_addr := [Ip4 ip; Udp port; QuicV1; P2p p]; a_s := s; a_f := f; a_seen := seen |}.
+Definition ex_cfg : config := {| max_peers := 2; max_addrs := 2; expiry := 100 |}.
+Definition ex_cache : cache :=
+  [(pA, [mk 1 1 pA 5 1 950; mk 2 1 pA 1 3 990; mk 3 1 pA 2 0 100; mk 4 1 pA 2 2 960; mk 5 1 pA 9 0 999]);
+   (pB, [mk 6 1 pB 1 0 800]);
+   ("peerC"%string, [mk 7 1 "peerC" 1 0 990]);
+   ("peerD"%string, [mk 8 1 "peerD" 0 1 990])].
+
+(* unreliable (1/3), expired (seen 100) and over-limit addresses go; peerB, expired, goes; peerD has
+   nothing left; two peers remain *)
+Example cleanup_example :
+  perform_cleanup ex_cfg 1000 ex_cache =
+  [(pA, [mk 1 1 pA 5 1 950; mk 4 1 pA 2 2 960]); ("peerC"%string, [mk 7 1 "peerC" 1 0 990])].
+Proof. vm_compute. reflexivity. Qed.
+
+Example evict_oldest_example :
+  perform_cleanup {| max_peers := 1; max_addrs := 2; expiry := 500 |} 1000 ex_cache =
+  [("peerC"%string, [mk 7 1 "peerC" 1 0 990])].
+Proof. vm_compute. reflexivity. Qed.
+
+Example clean_inhabited : clean ex_cfg 1000 (perform_cleanup ex_cfg 1000 ex_cache).
+Proof.
+  rewrite cleanup_example. split; [vm_compute; discriminate|].
+  intros p l [E|[E|[]]]; injection E as <- <-; (split; [discriminate|]); (split; [vm_compute; discriminate|]);
+    intros r Hr; cbn in Hr; intuition (subst; reflexivity).
+Qed.
+
+Example sync_example :
+  let a := [(pA, [mk 1 1 pA 2 1 10])] in
+  let b := [(pA, [mk 1 1 pA 3 0 20; mk 2 1 pA 1 0 5]); (pB, [mk 6 1 pB 1 0 7])] in
+  cache_sync a b = [(pA, [mk 1 1 pA 5 1 20; mk 2 1 pA 1 0 5]); (pB, [mk 6 1 pB 1 0 7])] /\
+  has_addr a pA (a_addr (mk 1 1 pA 0 0 0)) /\ has_addr b pB (a_addr (mk 6 1 pB 0 0 0)).
+Proof. repeat split; try (vm_compute; reflexivity); eexists; split; vm_compute; reflexivity. Qed.
+
+(* saturation: the counters reset instead of overflowing *)
+Example sync_saturates_example :
+  arec_sync (mk 1 1 pA 4294967290 7 10) (mk 1 1 pA 10 1 20) = mk 1 1 pA 1 0 20 /\
+  update_status true 30 (mk 1 1 pA 4294967295 7 10) = mk 1 1 pA 1 0 30 /\
+  update_status false 30 (mk 1 1 pA 3 4294967295 10) = mk 1 1 pA 0 1 30.
+Proof. vm_compute. repeat split; reflexivity. Qed.
+
+Example add_addr_example :
+  let raw := [Other "/dns/x"; Ip4 9; Tcp 4; Udp 5; QuicV1; P2p pA; Ws "/"] in
+  add_addr ex_cfg 1000 [] raw = [(pA, [{| a_addr := [Ip4 9; Udp 5; QuicV1; P2p pA]; a_s := 1; a_f := 0; a_seen := 1000 |}])] /\
+  add_addr ex_cfg 1000 [] [Ip4 9; Udp 5] = [] /\
+  all_wf (add_addr ex_cfg 1000 [] raw).
+Proof.
+  repeat split; try (vm_compute; reflexivity). apply all_wf_b_iff. vm_compute. reflexivity.
+Qed.
+
+Example history_example :
+  let ops := [(10, OpAdd [Ip4 1; Udp 1; P2p pA]); (20, OpAdd [Ip4 2; Tcp 1; Ws "/"; P2p pB]);
+              (30, OpStatus [Ip4 2; Tcp 1; Ws "/"; P2p pB] false); (31, OpStatus [Ip4 2; Tcp 1; Ws "/"; P2p pB] false);
+              (40, OpSync [("peerC"%string, [mk 7 1 "peerC" 1 0 35])]); (50, OpCleanup)] in
+  run ex_cfg ops [] = [(pA, [{| a_addr := [Ip4 1; Udp 1; P2p pA]; a_s := 1; a_f := 0; a_seen := 10 |}]);
+                       ("peerC"%string, [mk 7 1 "peerC" 1 0 35])] /\
+  syncs_wf ops.
+Proof.
+  split; [vm_compute; reflexivity|]. apply syncs_wf_b. vm_compute. reflexivity.
+Qed.
+
+Example atomic_example :
+  let steps := [WriteChunk 1 "{"; WriteChunk 2 "{b"; WriteChunk 1 "a}"; Commit 1; WriteChunk 2 "}"; Commit 2] in
+  map (fun n => target (run_fs (fresh_fs (Some "{}"%string)) (firstn n steps))) [0; 3; 4; 5; 6]%nat =
+  [Some "{}"; Some "{}"; Some "{a}"; Some "{a}"; Some "{b}"]%string.
+Proof. vm_compute. reflexivity. Qed.
+
+Lemma default_config_ok :
+  max_peers default_config = 1500 /\ max_addrs default_config = 6 /\ expiry default_config = 86400 * 1000000000.
+Proof. repeat split; reflexivity. Qed.
+
+(* load_cache_data does not re-validate what the file holds (the source says so: "Make sure to have
+   clean addrs inside the cache as we don't call craft_valid_multiaddr"): a schema-valid foreign file
+   brings in an address without transport and peer id *)
+Lemma foreign_file_unvalidated_refuted_lemma :
+  exists dec cfg now file c, load_cache dec cfg now file = Ok c /\ ~ all_wf c.
+Proof.
+  exists (fun _ => Some [("p"%string, [{| a_addr := [Ip4 1]; a_s := 1; a_f := 0; a_seen := 10 |}])]),
+    default_config, 20, (Some EmptyString).
+  eexists. split; [vm_compute; reflexivity|]. rewrite <- all_wf_b_iff. vm_compute. discriminate.
+Qed.
